@@ -237,8 +237,9 @@ def build_crate(jobs):
         mods += '#[allow(dead_code, unused_imports, clippy::all)]\nmod g%d_grammar;\n#[allow(dead_code, unused_imports, clippy::all)]\nmod g%d_grammar_trait;\n#[allow(dead_code, unused_imports, clippy::all)]\nmod g%d_parser;\n' % (i, i, i)
         arr = ', '.join(json.dumps(' '.join(letter(t) for t, _ in s)) for s in inputs)
         runs += ('    for (j, inp) in [%s].iter().enumerate() {\n        let mut g = g%d_grammar::G%dGrammar::new();\n'
-                 '        let r = std::panic::catch_unwind(std::panic::AssertUnwindSafe(|| g%d_parser::parse(inp, "in", &mut g).is_ok()));\n'
-                 '        println!("CASE %d {} {}", j, match r { Ok(true) => "ok", Ok(false) => "err", Err(_) => "panic" });\n'
+                 '        let r = std::panic::catch_unwind(std::panic::AssertUnwindSafe(|| g%d_parser::parse(inp, "in", &mut g).map(|_| ()).map_err(|e| format!("{:?}", e).replace(char::from(10u8), " ").chars().take(300).collect::<String>())));\n'
+                 '        println!("CASE %d {} {}", j, match &r { Ok(Ok(())) => "ok", Ok(Err(_)) => "err", Err(_) => "panic" });\n'
+                 '        if let Ok(Err(e)) = &r { println!("ERROR {}", e); }\n'
                  '        println!("CALLS {}", g.calls.join(" "));\n        for s in &g.start { println!("AST {}", s); }\n    }\n') % (arr if arr else '""', i, i, i, i)
     open(os.path.join(src, 'main.rs'), 'w').write(mods + '\nfn main() {\n    std::panic::set_hook(Box::new(|_| {}));\n' + runs + '}\n')
     env = dict(os.environ, CARGO_NET_OFFLINE='true')
@@ -255,6 +256,8 @@ def run_crate():
         if line.startswith('CASE '):
             _, i, j, st = line.split(' ')
             cur = out.setdefault((int(i), int(j)), dict(status=st, calls=[], asts=[]))
+        elif line.startswith('ERROR ') and cur is not None:
+            cur['error'] = line[6:]
         elif line.startswith('CALLS') and cur is not None:
             cur['calls'] = line.split(' ')[1:]
         elif line.startswith('AST ') and cur is not None:
@@ -489,8 +492,15 @@ def c23(pid, spec, tier, seed):
                 lschecks.fail(res, 'adapter-panic', 'the generated parser/adapter panicked', case)
                 continue
             if r['status'] != 'ok':
-                res['skipped'] += 1
-                res['skip_reasons']['sentence rejected by the generated parser'] = res['skip_reasons'].get('sentence rejected by the generated parser', 0) + 1
+                err = r.get('error', '')
+                if 'InternalError' in err or 'ASTType' in err or 'UserError' in err:
+                    lschecks.fail(res, 'adapter-error', 'a sentence of the grammar is rejected with an internal error of the generated adapter: ' + err[:200], case)
+                elif not meta[i]['lalr']:
+                    # the grammar was accepted as LL(k), hence is unambiguous, and the sentence was derived from it
+                    lschecks.fail(res, 'sentence-rejected', 'the generated LL(k) parser rejects a sentence of its grammar: ' + err[:200], case)
+                else:
+                    res['skipped'] += 1
+                    res['skip_reasons']['sentence rejected by the generated LALR(1) parser (resolved conflicts)'] = res['skip_reasons'].get('sentence rejected by the generated LALR(1) parser (resolved conflicts)', 0) + 1
                 continue
             nstart = r['calls'].count('Start')
             if nstart != 1 or len(r['asts']) != 1:
